@@ -318,6 +318,8 @@ def run_schedule(cfg: dict, events: list, batch: set | None = None, steps: dict 
         batch = batch or set()
         steps = {int(k): v for k, v in (steps or {}).items()}
         applied = []
+        for ev in cfg.get("setup") or []:
+            sim.apply(tuple(ev))
         for k, ev in enumerate(events):
             ev = tuple(ev)
             if ev not in sim.enabled():
@@ -356,6 +358,8 @@ def enumerate_schedules(rec: Rec, cfg: dict, depth: int, shard: int = 0, nshards
         sim = Sim(cfg)
         try:
             try:
+                for ev in cfg.get("setup") or []:
+                    sim.apply(tuple(ev))  # the position the enumeration starts from
                 for ev, settle in prefix:
                     sim.apply(ev, settle=settle)
                 enabled = sim.enabled()
@@ -409,6 +413,11 @@ CONFIGS_SMALL = [
     {"hosts": [0, 0, 0], "limit": 1, "lph": 0, "trace_yields": 1},
     {"hosts": [0, 0, 1], "limit": 2, "lph": 1, "trace_yields": 2},
     {"hosts": [0, 0, 0], "limit": 2, "lph": 0, "trace_yields": 1, "trace_fail_reuse": True},
+] + [
+    # both limits at once, full house with waiters for both hosts behind it (setup), then every short continuation: which
+    # waiter a release wakes depends on the (shuffled) key order
+    {"hosts": [0, 1, 1, 1, 0], "limit": 2, "lph": 1, "shuffle": sh_, "depth": 3,
+     "setup": [["start", 0], ["ok", 0], ["start", 1], ["ok", 1], ["start", 2], ["start", 3], ["start", 4]]} for sh_ in (0, 1, 2)
 ]
 
 
@@ -443,7 +452,7 @@ def units(tier: str, seed: int) -> list[Unit]:
     depth = 6 if tier == "quick" else 9
     ns = 3 if tier == "quick" else 8
     for k, cfg in enumerate(CONFIGS_SMALL):
-        d = depth if len(cfg["hosts"]) <= 3 else depth - 1
+        d = cfg.get("depth") or (depth if len(cfg["hosts"]) <= 3 else depth - 1)
         for sh in range(ns):
             us.append(Unit(f"enum{k}.{sh}", unit_enum, {"cfg": cfg, "depth": d, "shard": sh, "nshards": ns}))
     n = 400 if tier == "quick" else 15000
